@@ -222,5 +222,12 @@ fn c06_slot_reported_for_constant_key_histories_and_open_ended_paths() {
         let mut c = vec![0x36, 0x60, 0x05, 0x57, 0x00, 0x5b, 0x60, 0x02]; p32(&mut c, k); c.push(0x55);
         cases.push(Case { ob: "slots.path_runs_off_the_end", what: format!("jumpi arm: sstore({k:#x},2) then end of code"), code: c, must: vec![k] });
     }
+    for &k in &literal_keys(0) {
+        // read-only slot whose loaded word only feeds an expression that is culled (doubling) and then dropped
+        let mut c = vec![]; p32(&mut c, k); c.push(0x54); for _ in 0..9 { c.extend([0x80, 0x01]); } c.extend([0x50, 0x00]);
+        cases.push(Case { ob: "slots.read_only", what: format!("sload({k:#x}) doubled 9 times then popped"), code: c, must: vec![k] });
+        let mut c = vec![]; p32(&mut c, k); c.push(0x54); for _ in 0..9 { c.extend([0x80, 0x02]); } c.extend([0x60, 0x00, 0x52, 0x00]);
+        cases.push(Case { ob: "slots.read_only", what: format!("sload({k:#x}) squared 9 times then written to memory"), code: c, must: vec![k] });
+    }
     run_cases("c06_histories", cases);
 }
